@@ -405,6 +405,130 @@ def extractedTable : List Row :=
 
 end Loop
 
+/-! ### the evolution step: `tournament_selection_and_mutation` + `Mutations.mutation` (population level)
+
+  Generic in the agent type `A` and in the type `M` of mutation methods.  `TournamentSelection.select` and the
+  per-individual mutation methods are parameters (`select`, `Ops.call`), constrained in `Props/C20.lean` by the
+  specifications the other translators prove about them (`Proofs/TournGenEq.lean`, `Proofs/MutWireGenEq.lean`).
+
+  * `Mutations.mutation(population, pre_training_mut)`: the option list and its probabilities are the pre-training
+    ones iff `pre_training_mut`; `rng.choice` draws one method per member (`drawOk`: as many as members, each an
+    option of positive probability); unless `mutate_elite`, entry 0 is replaced by `no_mutation` (IndexError on an
+    empty draw); member `i` of the result is `post (method_i (member_i))`, in the order of the population.
+  * `tournament_selection_and_mutation`: `algo` defaults to the class name of member 0 (IndexError if there is none);
+    without accelerator: `elite, population = tournament.select(population)`, `population = mutation.mutation(population)`;
+    with accelerator every member is unwrapped first; the main process selects, mutates and saves member `i` to
+    `models/<env_name>/<algo>_<i>.pt`; every other process loads that file into ITS OLD member `i` (its `population`
+    is never rebound, and `elite` is never bound there); all members are wrapped again.  `save_elite`, on a process
+    that selected (no accelerator / the main process) only: the elite RETURNED BY SELECT (not member 0 of the mutated
+    population) is saved to `elite_path` up to the first `.pt` (default `<env_name>-elite_<algo>`) + `.pt`.
+    Returned: the population. -/
+namespace Loop.Evo
+
+/-- files written, in order -/
+inductive Ev (A : Type) where
+  | save (a : A) (path : String)
+  | saveLLM (a : A) (path : Option String)
+
+/-- what the step uses of an agent and of a mutation method (in-place methods: the agent after the call) -/
+structure Ops (A M : Type) where
+  className : A → String
+  unwrap : A → A
+  wrap : A → A
+  load : A → String → A
+  call : M → A → A
+  post : A → A
+
+structure MutCfg (M : Type) where
+  options : List M
+  proba : List Rat
+  preOptions : List M
+  preProba : List Rat
+  mutateElite : Bool
+  noMut : M
+
+/-- `d` is a possible result of `rng.choice(opts, n, p=p)` -/
+def drawOk {M : Type} [BEq M] (opts : List M) (p : List Rat) (n : Nat) (d : List M) : Bool :=
+  decide (d.length = n) && decide (opts.length = p.length) &&
+  d.all (fun m => (List.zip opts p).any (fun op => op.1 == m && decide (0 < op.2)))
+
+/-- the methods actually applied: entry 0 is forced to `no_mutation` unless `mutate_elite` -/
+def applied {M : Type} (cfg : MutCfg M) (d : List M) : Option (List M) :=
+  if cfg.mutateElite then some d
+  else match d with
+    | [] => none                         -- `mutation_choice[0] = …` on an empty array
+    | _ :: r => some (cfg.noMut :: r)
+
+/-- member `i` of the result is `post (method_i member_i)` -/
+def mutateWith {A M : Type} (ops : Ops A M) (ms : List M) (pop : List A) : List A :=
+  List.zipWith (fun m a => ops.post (ops.call m a)) ms pop
+
+def optionsOf {M : Type} (cfg : MutCfg M) (pre : Bool) : List M := if pre then cfg.preOptions else cfg.options
+def probaOf {M : Type} (cfg : MutCfg M) (pre : Bool) : List Rat := if pre then cfg.preProba else cfg.proba
+
+/-- `Mutations.mutation(population, pre_training_mut)` with the draw `d`; `none` = an exception / not a draw -/
+def mutation {A M : Type} [BEq M] (ops : Ops A M) (cfg : MutCfg M) (pre : Bool) (d : List M) (pop : List A) :
+    Option (List A) :=
+  if drawOk (optionsOf cfg pre) (probaOf cfg pre) pop.length d then
+    (applied cfg d).map (fun ms => mutateWith ops ms pop)
+  else none
+
+/-- where the main process parks member `i` for the other processes -/
+def tempPath (envName algo : String) (i : Nat) : String :=
+  "models/" ++ envName ++ "/" ++ algo ++ "_" ++ toString i ++ ".pt"
+
+def elitePathOf (envName algo : String) (elitePath : Option String) : String :=
+  (match elitePath with
+   | some p => (p.splitOn ".pt").headD p
+   | none => envName ++ "-elite_" ++ algo) ++ ".pt"
+
+def eliteEvents {A : Type} (saveElite llm : Bool) (envName algo : String) (elitePath : Option String) (elite : A) :
+    List (Ev A) :=
+  if saveElite then (if llm then [Ev.saveLLM elite elitePath] else [Ev.save elite (elitePathOf envName algo elitePath)])
+  else []
+
+/-- `tournament_selection_and_mutation`; `accel` = `none`: no accelerator, `some b`: `b` = this is the main process;
+    `none` = an exception.  Returns the population and the files written. -/
+def evoStep {A M : Type} (ops : Ops A M) (select : List A → Option (A × List A))
+    (mutate : List A → Option (List A)) (pop : List A) (envName : String) (algo elitePath : Option String)
+    (saveElite : Bool) (accel : Option Bool) (llm : Bool) : Option (List A × List (Ev A)) :=
+  match (match algo with | some a => some a | none => pop.head?.map ops.className) with
+  | none => none
+  | some algo =>
+    match accel with
+    | none =>
+      match select pop with
+      | none => none
+      | some (elite, sel) =>
+        match mutate sel with
+        | none => none
+        | some res => some (res, eliteEvents saveElite llm envName algo elitePath elite)
+    | some true =>
+      match select (pop.map ops.unwrap) with
+      | none => none
+      | some (elite, sel) =>
+        match mutate sel with
+        | none => none
+        | some res =>
+          some (res.map ops.wrap,
+                res.mapIdx (fun i a => Ev.save a (tempPath envName algo i)) ++
+                  eliteEvents saveElite llm envName algo elitePath elite)
+    | some false =>
+      some (((pop.map ops.unwrap).mapIdx (fun i a => ops.load a (tempPath envName algo i))).map ops.wrap, [])
+
+/-- the step AS FOUND (before /repo 8b078ab): `if save_elite:` was not restricted to the process that holds the
+    elite, so a process that is not the main one read the unbound `elite` — UnboundLocalError.  Kept as a model switch
+    for the witness `C20_evostep_as_found_save_elite_witness`; equal to `evoStep` everywhere else. -/
+def evoStepAsFound {A M : Type} (ops : Ops A M) (select : List A → Option (A × List A))
+    (mutate : List A → Option (List A)) (pop : List A) (envName : String) (algo elitePath : Option String)
+    (saveElite : Bool) (accel : Option Bool) (llm : Bool) : Option (List A × List (Ev A)) :=
+  if accel = some false ∧ saveElite = true then
+    (match (match algo with | some a => some a | none => pop.head?.map ops.className) with
+     | none => none | some _ => none)
+  else evoStep ops select mutate pop envName algo elitePath saveElite accel llm
+
+end Loop.Evo
+
 /-! ### line protocol -/
 namespace Loop
 open Util
